@@ -646,6 +646,11 @@ class BloomFilterOnDisk(BloomFilter):
             self.__file_pointer.close()
             self.__file_pointer = None
 
+    def clear(self) -> None:
+        """Clear or reset the Bloom Filter, including the element count stored in the file"""
+        super().clear()
+        self.__update()
+
     def export(self, file: Union[str, Path]) -> None:  # type: ignore
         """Export to disk if a different location
 
